@@ -226,7 +226,11 @@ ssize_t writev(int fd, const struct iovec *iov, int cnt) {
 }
 
 struct statx;
-int statx(int dirfd, const char *path, int flags, unsigned int mask, struct statx *buf) {
+int statx(int dirfd, const char *path_arg, int flags, unsigned int mask, struct statx *buf) {
+    /* glibc declares the path argument nonnull, but std probes statx(0, NULL, ..) on purpose: the volatile copy keeps
+     * the compiler from deleting the NULL checks below */
+    const char *volatile path_v = path_arg;
+    const char *path = path_v;
     init();
     if (is_tracked(dirfd) && (!path || !*path)) {
         struct entry *e = lookup(K_STATX);
@@ -237,6 +241,7 @@ int statx(int dirfd, const char *path, int flags, unsigned int mask, struct stat
             return -1;
         }
     }
+    if (path && *path && interesting(path)) rep("call statx-path path=%s\n", path);
     return (int)syscall(SYS_statx, dirfd, path, flags, mask, buf);
 }
 
